@@ -513,6 +513,28 @@ def bind_args(orig, a, k):
         raise GlueBroken(f"cannot bind the call of {getattr(orig, '__name__', orig)}: {e}")
 
 
+def find_private(mod, preferred: str, params: tuple):
+    """the private function a recorder attaches to: by its name, or – when it was renamed – the one function of the module whose
+    parameters include the given names; returns (attribute name, function) or raises GlueBroken"""
+    import inspect
+
+    f = getattr(mod, preferred, None)
+    if callable(f):
+        return preferred, f
+    cands = []
+    for name, g in vars(mod).items():
+        if inspect.isfunction(g) and g.__module__ == mod.__name__:
+            try:
+                ps = set(inspect.signature(g).parameters)
+            except (TypeError, ValueError):
+                continue
+            if set(params) <= ps:
+                cands.append((name, g))
+    if len(cands) == 1:
+        return cands[0]
+    raise GlueBroken(f"{mod.__name__}.{preferred} is gone and {len(cands)} functions take the parameters {params}")
+
+
 def need(args, *names):
     try:
         return [args[n] for n in names]
